@@ -177,6 +177,27 @@ Qed.
 
 (* the per-code-point core: the token chosen for the lower-cased code point accepts the
    original code point, outside the skew set (known finding K3) *)
+(* the shapes of the documented conversion, with what the chosen token says about x; stated
+   once so that no later proof step has to convert terms containing the engine tables *)
+Lemma spec_token_cases : forall c x,
+  (spec_token c x = [92; 100]%N /\ mem engine_d x = true)
+  \/ (spec_token c x = [92; 119]%N /\ mem engine_w x = true)
+  \/ (spec_token c x = [92; 115]%N /\ mem engine_s x = true)
+  \/ (spec_token c x = [92; 68]%N /\ mem engine_d x = false)
+  \/ (spec_token c x = [92; 87]%N /\ mem engine_w x = false)
+  \/ (spec_token c x = [92; 83]%N /\ mem engine_s x = false)
+  \/ spec_token c x = [x].
+Proof.
+  intros c x. unfold spec_token.
+  generalize (mem engine_d x) (mem engine_w x) (mem engine_s x). intros bd bw bs.
+  destruct (f_digit c), bd; cbn [andb negb]; auto;
+  destruct (f_word c), bw; cbn [andb negb]; auto 7;
+  destruct (f_space c), bs; cbn [andb negb]; auto 7;
+  destruct (f_non_digit c); cbn [andb negb]; auto 7;
+  destruct (f_non_word c); cbn [andb negb]; auto 8;
+  destruct (f_non_space c); cbn [andb negb]; auto 8.
+Qed.
+
 Lemma token_lower_accepts_original : forall c x,
   is_scalar x = true -> mem_cp x skew_set = false ->
   den_str lit_ci cls_engine (class_token c class_chain (lower1 x)) [x].
@@ -189,31 +210,17 @@ Proof.
   pose proof (engine_s_fold_invariant x (lower1 x) Hxl) as Is.
   destruct (C09_negated x Hs) as (ND & NW & NS).
   apply den_token. exists x. split; [reflexivity|].
-  assert (R : forall l, is_class_letter l = true -> cls_engine l x ->
-              class_token c class_chain (lower1 x) = [92%N; l] ->
-              exists l0, class_token c class_chain (lower1 x) = [92%N; l0]
-                         /\ is_class_letter l0 = true /\ cls_engine l0 x).
-  { intros l Hl Hc E. exists l. auto. }
-  pose proof (C09_token_spec c (lower1 x)) as T. unfold spec_token in T.
-  destruct (f_digit c && mem engine_d (lower1 x)) eqn:E1.
-  { right. apply (R 100%N); [reflexivity| |exact T].
-    apply andb_true_iff in E1 as [_ E1]. apply cls_engine_d. rewrite <- Id. exact E1. }
-  destruct (f_word c && mem engine_w (lower1 x)) eqn:E2.
-  { right. apply (R 119%N); [reflexivity| |exact T].
-    apply andb_true_iff in E2 as [_ E2]. apply cls_engine_w. rewrite <- Iw. exact E2. }
-  destruct (f_space c && mem engine_s (lower1 x)) eqn:E3.
-  { right. apply (R 115%N); [reflexivity| |exact T].
-    apply andb_true_iff in E3 as [_ E3]. apply cls_engine_s. rewrite <- Is. exact E3. }
-  destruct (f_non_digit c && negb (mem engine_d (lower1 x))) eqn:E4.
-  { right. apply (R 68%N); [reflexivity| |exact T].
-    apply andb_true_iff in E4 as [_ E4]. apply cls_engine_D. rewrite ND, <- Id. exact E4. }
-  destruct (f_non_word c && negb (mem engine_w (lower1 x))) eqn:E5.
-  { right. apply (R 87%N); [reflexivity| |exact T].
-    apply andb_true_iff in E5 as [_ E5]. apply cls_engine_W. rewrite NW, <- Iw. exact E5. }
-  destruct (f_non_space c && negb (mem engine_s (lower1 x))) eqn:E6.
-  { right. apply (R 83%N); [reflexivity| |exact T].
-    apply andb_true_iff in E6 as [_ E6]. apply cls_engine_S. rewrite NS, <- Is. exact E6. }
-  left. split; [exact T|exact Hlx].
+  rewrite (C09_token_spec c (lower1 x)).
+  generalize dependent (lower1 x). intros y Hxl Hlx Id Iw Is.
+  destruct (spec_token_cases c y) as [[E H]|[[E H]|[[E H]|[[E H]|[[E H]|[[E H]|E]]]]]];
+    rewrite E; [right; eexists; (split; [reflexivity|]); (split; [reflexivity|]) ..|].
+  - apply cls_engine_d. rewrite <- Id. exact H.
+  - apply cls_engine_w. rewrite <- Iw. exact H.
+  - apply cls_engine_s. rewrite <- Is. exact H.
+  - apply cls_engine_D. rewrite ND, <- Id, H. reflexivity.
+  - apply cls_engine_W. rewrite NW, <- Iw, H. reflexivity.
+  - apply cls_engine_S. rewrite NS, <- Is, H. reflexivity.
+  - left. split; [reflexivity|exact Hlx].
 Qed.
 
 Theorem Spec_str_lower_original : forall c t,
